@@ -1,4 +1,5 @@
 import Sge.Dec
 import Sge.Mint
-import Sge.Core.Chain
+import Sge.Core.Run
 import Sge.Ovm
+import Sge.Subaccount
